@@ -2,9 +2,9 @@
 import importlib
 
 PROPS = {
-    "C13": [("u_discover", "quick")],
+    "C13": [("u_discover", "quick"), ("u_topo", "quick")],
     "C08": [("u_capt", "quick")],
-    "C16": [("u_pkgallow", "quick"), ("u_orphan", "quick")],
+    "C16": [("u_pkgallow", "quick"), ("u_orphan", "quick"), ("u_topo", "quick")],
     "C10": [("u_intlit", "quick"), ("u_dcefx", "quick")],
     "C07": [("u_munify", "quick"), ("u_tmono", "quick")],
     "C15": [("u_art", "quick"), ("u_link", "quick"), ("u_deprec", "quick")],
